@@ -81,6 +81,7 @@ class _ManifoldDynamicsService(_DynamicsServiceBase):
         self._direction = 1 if self.domain_obj._direction == "positive" else -1
         self._forward = - self._stable
         self._manifold_result = None
+        self._manifold_result_orbit = None
 
         self._generator = None
         self._eigendecomposition_config = None
@@ -209,15 +210,18 @@ class _ManifoldDynamicsService(_DynamicsServiceBase):
     @property
     def manifold_result(self) -> Tuple[float, float, List[np.ndarray], List[np.ndarray], int, int]:
         """The manifold result."""
+        if self._manifold_result is not None and self._manifold_result_orbit != self._orbit_key():
+            return None  # computed for an earlier state of the generating orbit
         return self._manifold_result
 
     @property
     def trajectories(self) -> List[Trajectory]:
         """The trajectories of the manifold."""
-        if self._manifold_result is None:
+        manifold_result = self.manifold_result
+        if manifold_result is None:
             return None
-        states_list = self._manifold_result[2]
-        times_list = self._manifold_result[3]
+        states_list = manifold_result[2]
+        times_list = manifold_result[3]
         return [Trajectory(times, states) for times, states in zip(times_list, states_list)]
 
     def compute_stm(
@@ -284,7 +288,7 @@ class _ManifoldDynamicsService(_DynamicsServiceBase):
         )
 
         def _factory() -> Tuple[float, float, List[np.ndarray], List[np.ndarray], int, int]:
-            self._manifold_result = self._run_compute(
+            return self._run_compute(
                 step=step,
                 integration_fraction=integration_fraction,
                 NN=NN,
@@ -296,9 +300,12 @@ class _ManifoldDynamicsService(_DynamicsServiceBase):
                 safe_distance=safe_distance,
                 show_progress=show_progress,
             )
-            return self._manifold_result
 
-        return self.get_or_create(cache_key, _factory)
+        # The stored result is the one of the most recent request (also when it is
+        # answered from the cache), tagged with the orbit state it was computed for
+        self._manifold_result = self.get_or_create(cache_key, _factory)
+        self._manifold_result_orbit = self._orbit_key()
+        return self._manifold_result
 
     def _run_compute(
         self,
